@@ -43,7 +43,7 @@ fn f(j: Option<&J>) -> Option<f64> {
 }
 
 fn close(a: f64, b: f64) -> bool {
-    a == b || (a - b).abs() <= 1e-9 * (a.abs().max(b.abs()).max(1.0))
+    a == b || (a.is_nan() && b.is_nan()) || (a - b).abs() <= 1e-9 * (a.abs().max(b.abs()).max(1.0))
 }
 
 #[derive(Clone, Copy, PartialEq)]
@@ -63,7 +63,18 @@ pub fn check(ctx: &mut Ctx) {
     for _ in 0..n {
         let mut r = ctx.rng.fork();
         let nrows = 2 + r.below(if ctx.thorough() { 7 } else { 12 });
-        let docs: Vec<String> = (0..nrows).map(|_| doc(&mut r, false)).collect();
+        // a share of the rows carries text that coerces to NaN in the numeric column (±inf would print as null, which the
+        // merge oracle cannot tell from "no numeric value")
+        let docs: Vec<String> = (0..nrows)
+            .map(|_| {
+                let d = doc(&mut r, false);
+                if r.chance(12) {
+                    d.replace("\"x\":\"word\"", "\"x\":\"NaN\"").replace("\"x\":null", "\"x\":\"NaN\"")
+                } else {
+                    d
+                }
+            })
+            .collect();
         let nk = r.below(3);
         let mut keys: Vec<String> = vec![];
         for _ in 0..nk {
@@ -196,6 +207,8 @@ pub fn check(ctx: &mut Ctx) {
                             },
                             Kind::SumFloat => match (f(a), f(b), f(ab)) {
                                 (Some(x), Some(y), Some(z)) => close(x + y, z),
+                                // a non-finite sum prints as null: then the whole must be null too
+                                (None, _, z) | (_, None, z) => z.is_none(),
                                 _ => false,
                             },
                             Kind::Min => combine(a, b, ab, |x, y| x.min(y)),
